@@ -33,7 +33,7 @@ mut("c01-lowercase-n-accepted", ["C01", "C16"], "src/ska_dict/bit_encoding.rs", 
 mut("c01-first-kmer-palindrome", ["C01", "C15"], "src/ska_dict.rs",
     "                    let (kmer, base, _rc) = kmer_it.get_curr_kmer();\n                    if kmer_it.self_palindrome() {\n                        self.add_palindrome_to_dict(kmer, base);\n                    } else {\n                        self.add_to_dict(kmer, base);\n                    }",
     "                    let (kmer, base, _rc) = kmer_it.get_curr_kmer();\n                    self.add_to_dict(kmer, base);", "self-rc handling skipped for the first k-mer of a record")
-mut("c01-rc-middle-after-N", ["C01", "C02", "C16"], "src/ska_dict/split_kmer.rs", "self.rc_middle_base = rc_base(self.middle_base);\n        self.rc_lower = self.upper.rev_comp", "self.rc_middle_base = self.middle_base ^ 2 ^ ((self.k as u8 >> 5) & 2);\n        self.rc_lower = self.upper.rev_comp", "wrong rc middle base for k>=32 after a restart")
+mut("c01-rc-middle-after-N", ["C01", "C02", "C16"], "src/ska_dict/split_kmer.rs", "self.rc_middle_base = rc_base(self.middle_base);\n        self.rc_lower = self.upper.rev_comp", "self.rc_middle_base = self.middle_base ^ 2 ^ ((self.k as u8 >> 4) & 2);\n        self.rc_lower = self.upper.rev_comp", "wrong rc middle base for k>=32 after a restart")
 # ---- C04 / C05
 mut("c04-overhang-off-by-one", ["C04"], "src/ska_ref/aln_writer.rs", "(self.last_mapped + self.half_split_len).saturating_sub(self.last_written);", "(self.last_mapped + self.half_split_len).saturating_sub(self.last_written + 1);")
 mut("c04-mask-flags-swapped-u128", ["C04"], "src/lib.rs",
@@ -47,7 +47,7 @@ mut("c06-threshold-strict", ["C06", "C03"], "src/merge_ska_array.rs", "if *count
 mut("c06-nogap-ignored-in-ambig-or-const", ["C06"], "src/merge_ska_array.rs", "                                b'-' => {\n                                    if ignore_const_gaps {\n                                        0\n                                    } else {\n                                        1\n                                    }\n                                }", "                                b'-' => 1,")
 mut("c06-floor-threshold", ["C06", "C14"], "src/generic_modes.rs", "let filter_threshold = f64::ceil(ska_array.nsamples() as f64 * min_freq) as usize;", "let filter_threshold = f64::floor(ska_array.nsamples() as f64 * min_freq) as usize;")
 # ---- C07 / C08
-mut("c07-extend-padding-width", ["C07", "C10"], "src/merge_ska_dict.rs", "let mut empty_samples = vec![0; self.n_samples];", "let mut empty_samples = vec![0; other.nsamples()];")
+mut("c07-extend-padding-width", ["C07", "C10"], "src/merge_ska_dict.rs", "let mut empty_samples = vec![0; self.n_samples];", "let mut empty_samples = vec![0; total_samples - self.n_samples];")
 mut("c08-delete-keeps-empty-rows", ["C08", "C10"], "src/merge_ska_array.rs", "        self.names = new_names;\n        self.update_counts(false);", "        self.names = new_names;")
 # ---- C11
 mut("c11-parallel-merge-names", ["C11", "C02"], "src/merge_ska_dict.rs", "                    if self_name.is_empty() {\n                        swap(self_name, other_name);\n                    }", "                    if self_name.is_empty() && !other_name.ends_with('9') {\n                        swap(self_name, other_name);\n                    }", "a sample name lost in the parallel merge")
@@ -109,6 +109,12 @@ def setup():
 def run_mutant(m, suite, tier):
     res = dict(id=m["id"], props=m["props"], note=m["note"])
     sh("git checkout -- . && git clean -fdq -e target", cwd=WT)
+    if "patch" in m:
+        rc, out = sh(f"git apply {m['patch']}", cwd=WT)
+        if rc != 0:
+            res["status"] = "PATCH DOES NOT APPLY"; res["log"] = out[-400:]
+            return res
+        return build_and_check(m, res, suite, tier)
     path = os.path.join(WT, m["file"])
     src = open(path).read()
     want = m.get("count", 1)
@@ -121,6 +127,10 @@ def run_mutant(m, suite, tier):
     else:
         src2 = src.replace(m["old"], m["new"])
     open(path, "w").write(src2)
+    return build_and_check(m, res, suite, tier)
+
+
+def build_and_check(m, res, suite, tier):
     rc, out = sh(f"cargo build --release --offline --features verif-hooks --target-dir {ROOT}/target-cli", cwd=WT)
     if rc != 0:
         res["status"] = "DOES NOT COMPILE"; res["log"] = out[-600:]
@@ -152,6 +162,11 @@ def main():
         if a == "--tier": tier = sys.argv[i + 1]
     setup()
     outp = "/verif/notes/mutants-results.jsonl"
+    global M
+    if "--patch" in sys.argv:
+        i = sys.argv.index("--patch")
+        M = [dict(id=sys.argv[i + 2], props=sys.argv[i + 3].split(","), patch=os.path.abspath(sys.argv[i + 1]), note="seeded by an independent sub-agent")]
+        only = None
     for m in M:
         if only and m["id"] not in only and not any(m["id"].startswith(o) for o in only): continue
         r = run_mutant(m, suite, tier)
